@@ -126,6 +126,7 @@ func (node *FamilyNode) Similarity(other *FamilyNode, depth int, options Similar
 func (node *FamilyNode) addChild(value string) *ChildNode {
 	n := newChildNode(node, value)
 	node.AddNode(n)
+	node.resetDocumentCaches()
 
 	return n
 }
@@ -133,8 +134,17 @@ func (node *FamilyNode) addChild(value string) *ChildNode {
 func (node *FamilyNode) AddChild(individual *IndividualNode) *ChildNode {
 	n := newChildNodeWithIndividual(node, individual)
 	node.AddNode(n)
+	node.resetDocumentCaches()
 
 	return n
+}
+
+// resetDocumentCaches must be called when the husband, wife or children of the
+// family change because the individuals remember their families and spouses.
+func (node *FamilyNode) resetDocumentCaches() {
+	if doc := node.Document(); doc != nil {
+		doc.resetCaches()
+	}
 }
 
 func (node *FamilyNode) SetHusband(individual *IndividualNode) *FamilyNode {
@@ -152,6 +162,7 @@ func (node *FamilyNode) SetHusband(individual *IndividualNode) *FamilyNode {
 		}
 		
 		DeleteNodesWithTag(node, TagHusband)
+		node.resetDocumentCaches()
 		node.husband = nil
 		node.cachedHusband = true
 		return node
@@ -178,6 +189,7 @@ func (node *FamilyNode) SetWife(individual *IndividualNode) *FamilyNode {
 		}
 		
 		DeleteNodesWithTag(node, TagWife)
+		node.resetDocumentCaches()
 		node.wife = nil
 		node.cachedWife = true
 		return node
@@ -197,6 +209,7 @@ func (node *FamilyNode) SetWifePointer(pointer string) *FamilyNode {
 	}
 
 	node.AddNode(newNode(nil, node, TagWife, value, ""))
+	node.resetDocumentCaches()
 	node.cachedWife = false
 
 	return node
@@ -211,6 +224,7 @@ func (node *FamilyNode) SetHusbandPointer(pointer string) *FamilyNode {
 
 	husbandNode := newNode(nil, node, TagHusband, value, "")
 	node.AddNode(husbandNode)
+	node.resetDocumentCaches()
 	node.cachedHusband = false
 
 	return node
